@@ -181,11 +181,6 @@ def permute_dataset_visits(ds, rng):
     return n_unsorted
 
 
-def _same32(a, b):
-    """bit-equality of two float32-representable numbers, NaN == NaN."""
-    return (a != a and b != b) or a == b
-
-
 def _run_const(spec, ctx):
     import numpy as np
 
@@ -229,11 +224,9 @@ def _run_const(spec, ctx):
                 t = df.loc[df["ID"] == sid, "TIME"].to_numpy()
                 if (np.diff(t) < 0).any():
                     ctx.count("const_shuffled_input_histories")
-        nontrivial = {}
         for sid, (a, v) in seen.items():
             refs = [ref_constant(a, v, p) for p in PTYPES]
             if any(not np.array_equal(refs[0], r, equal_nan=True) for r in refs[1:]):
-                nontrivial[sid] = True
                 ctx.distinct("const", route, a.tolist(), np.nan_to_num(v, nan=1e99).tolist())
             if len(a) == 1:
                 ctx.count("const_single_visit_histories")
@@ -733,7 +726,8 @@ def _run_lme(spec, ctx):
             if sm_re is not None and sid in sm_re:
                 ctx.count("lme_subjects_vs_statsmodels")
                 ref = sm_re[sid]
-                err = float(np.max(np.abs(b - ref) - 1e-6 * np.maximum(np.abs(b), np.abs(ref)) - 1e-9 * sb))
+                # 1e-6 relative to the subject's effect vector (components of very different size share the error of one solve)
+                err = float(np.max(np.abs(b - ref)) - 1e-6 * max(float(np.abs(b).max()), float(np.abs(ref).max())) - 1e-9 * sb)
                 worst_sm = max(worst_sm, float(np.max(np.abs(b - ref)) / sb))
                 if not err <= 0:
                     ctx.violation("lme.personalize/differs-from-statsmodels-random-effects",
